@@ -9,6 +9,7 @@ type unit struct {
 	hints           string   // Go declarations (types, constants, bodyless funcs) of what is used from other packages, pkg.X written pkg_X
 	actions         []string // receiver fields (interfaces to the outside) whose method calls are recorded, in order, as effects
 	bytestr         bool     // a Go string is a list of bytes (list Z): indexing, slicing, strings.HasPrefix/IndexByte/Index from Lib/GoLib.v
+	join            bool     // an `if` that only assigns variables becomes `let vars := if .. in` instead of duplicating the code after it
 	clock           bool     // time.Now() reads, and time.Sleep(d) advances, an explicit clock `now_` that is also passed to the untranslated methods of the receiver
 	drop            []string // statements calling something whose source text starts with one of these are left out (statistics, logging)
 }
@@ -74,5 +75,5 @@ type raft_SnapshotMeta struct {
 		hints: `
 func errors_Is(err, target error) bool
 `},
-	{name: "SqlToken", dir: "db", file: "state.go", funcs: []string{"isSQLSpace", "isSQLIDChar", "sqlToken"}, bytestr: true},
+	{name: "SqlToken", dir: "db", file: "state.go", funcs: []string{"isSQLSpace", "isSQLIDChar", "asciiLower", "sqlToken", "IsBreakingPragma"}, bytestr: true, join: true},
 }
